@@ -74,7 +74,7 @@ def run(chk):
     thorough = chk.tier == "thorough"
     model_check(chk, [("Neg_Dedisp_cropsign.cfg", "RealignDecl"), ("Neg_Dedisp_nostart.cfg", "StartAdvance")])
     gen_replay(chk, rnd)
-    n_law, n_inc, n_lseq, n_iseq = (14000, 7000, 1200, 800) if thorough else (800, 550, 90, 70)
+    n_law, n_inc, n_lseq, n_iseq = (14000, 6500, 1200, 800) if thorough else (800, 480, 90, 70)
     cases = [D.gen_law_case(rnd) for _ in range(n_law)]
     for i in range(n_inc):
         c = D.gen_incoh_case(rnd, i)
@@ -84,13 +84,16 @@ def run(chk):
     cases += [D.gen_lawseq_case(rnd) for _ in range(n_lseq)]
     # the same frequency-array objects handed to several calls, judged against their values before the first call
     cases += [D.gen_lawarr_case(rnd) for _ in range(n_lseq)]
+    # Dask: signals of one geometry but different data (and one signal, two DMs) evaluated in ONE graph
+    n_joint = 400 if thorough else 50
+    cases += [D.gen_incohjoint_case(rnd, i) for i in range(n_joint)]
     cases += [D.gen_incohseq_case(rnd, i) for i in range(n_iseq)]
     events = D.collect(cases, chk)
     D.judge(chk, events, cases, "C06", jobs=8, timeout=6000 if chk.tier == "thorough" else 1500)
     for e in [e for e in events if e["ev"] == "incoh"][:2] + [e for e in events if e["ev"] in ("sdelay", "chain")][:2]:
         chk.sample(e["_desc"])
     inc = [e for e in events if e["ev"] == "incoh"]
-    chk.notes["sessions"] = {"law_one_dm_object": n_lseq, "law_same_frequency_arrays": n_lseq, "incoh_one_signal_object": n_iseq,
+    chk.notes["sessions"] = {"law_one_dm_object": n_lseq, "law_same_frequency_arrays": n_lseq, "dask_results_in_one_graph": n_joint, "incoh_one_signal_object": n_iseq,
                              "dm_ops": {}}
     for c in cases:
         for op, _ in (c.get("steps", []) if c["kind"] != "lawarr" else []):
